@@ -89,6 +89,29 @@ func (x *X) binop(fr *frame, in *ssa.BinOp) Val {
 					return S{fmt.Sprintf("(mod %s %d)", at, c+1), SInt}
 				}
 			}
+			if c, ok := constInt(in.Y); ok && c > 0 && (c&(c-1)) == 0 {
+				if _, signed := intInfo(t); !signed {
+					return S{fmt.Sprintf("(* %d (mod (div %s %d) 2))", c, at, c), SInt}
+				}
+			}
+		case token.OR:
+			// x | 2^k on unsigned values: add the bit when it is clear
+			if c, ok := constInt(in.Y); ok && c > 0 && (c&(c-1)) == 0 {
+				if _, signed := intInfo(t); !signed {
+					return S{fmt.Sprintf("(ite (= (mod (div %s %d) 2) 1) %s (+ %s %d))", at, c, at, at, c), SInt}
+				}
+			}
+			if c, ok := constInt(in.X); ok && c > 0 && (c&(c-1)) == 0 {
+				if _, signed := intInfo(t); !signed {
+					return S{fmt.Sprintf("(ite (= (mod (div %s %d) 2) 1) %s (+ %s %d))", bt, c, bt, bt, c), SInt}
+				}
+			}
+		case token.AND_NOT:
+			if c, ok := constInt(in.Y); ok && c > 0 && (c&(c-1)) == 0 {
+				if _, signed := intInfo(t); !signed {
+					return S{fmt.Sprintf("(ite (= (mod (div %s %d) 2) 1) (- %s %d) %s)", at, c, at, c, at), SInt}
+				}
+			}
 		}
 		unsup("integer operator %s in Int mode", in.Op)
 	case kString:
@@ -410,6 +433,7 @@ func (x *X) alloc(fr *frame, in *ssa.Alloc) {
 		x.cellN++
 		c := &Cell{id: x.cellN, name: in.Comment, typ: t}
 		x.st.cells[c] = x.zero(t)
+		fr.cells[in] = c
 		fr.vals[in] = Ptr{Kind: pCell, Cell: c, Root: t}
 		return
 	}
@@ -542,7 +566,7 @@ func (x *X) strSub(s, lo, hi string) string {
 		return s
 	}
 	r := x.define("sub", SStr, fmt.Sprintf("(gs.sub %s %s %s)", s, lo, hi))
-	x.assume(fmt.Sprintf("(>= %s 0.0)", r))
+	x.assumeStr(r)
 	x.assume(fmt.Sprintf("(=> (and (<= 0 %s) (<= %s %s) (<= %s (gs.len %s))) (= (gs.len %s) (- %s %s)))", lo, lo, hi, hi, s, r, hi, lo))
 	x.assume(fmt.Sprintf("(=> (and (= 0 %s) (= %s (gs.len %s))) (= %s %s))", lo, hi, s, r, s))
 	x.assume(fmt.Sprintf("(=> (and (<= 0 %s) (< %s %s) (<= %s (gs.len %s))) (= (gs.at %s 0) (gs.at %s %s)))", lo, lo, hi, hi, s, r, s, lo))
@@ -733,12 +757,47 @@ func (x *X) makeSlice(fr *frame, in *ssa.MakeSlice) Val {
 
 // ---- range over maps / strings (VC mode, see loop.go) ----
 
-func (x *X) rangeInit(fr *frame, in *ssa.Range) Val {
-	unsup("range over %s", in.X.Type())
-	return nil
+// Iter is the state of a range-over-string iteration: the byte position lives in a cell.
+type Iter struct {
+	Cell *Cell
+	Str  string
 }
 
+func (x *X) rangeInit(fr *frame, in *ssa.Range) Val {
+	if kindOf(in.X.Type()) != kString {
+		unsup("range over %s", in.X.Type())
+	}
+	if x.mode == modeSummary {
+		unsup("range over string in a pure summary")
+	}
+	x.cellN++
+	c := &Cell{id: x.cellN, name: "rangepos", typ: types.Typ[types.Int]}
+	x.st.cells[c] = S{"0", SInt}
+	if fr.iters == nil {
+		fr.iters = map[*ssa.Range]Iter{}
+	}
+	it := Iter{Cell: c, Str: x.get(fr, in.X).(S).T}
+	fr.iters[in] = it
+	return it
+}
+
+// rangeNext: (ok, index, rune) of the next position; the width of a rune is
+// 1 for ASCII and 1..4 otherwise, never running past the end.
 func (x *X) rangeNext(fr *frame, in *ssa.Next) Val {
-	unsup("range next")
-	return nil
+	it, ok := x.get(fr, in.Iter).(Iter)
+	if !ok || !in.IsString {
+		unsup("range next over a map")
+	}
+	pos := x.st.cells[it.Cell].(S).T
+	n := "(gs.len " + it.Str + ")"
+	okT := x.define("rng.ok", SBool, "(< "+pos+" "+n+")")
+	r := x.fresh("rune", SInt)
+	w := x.fresh("width", SInt)
+	b := "(gs.at " + it.Str + " " + pos + ")"
+	x.assume(implies(okT, fmt.Sprintf("(and (<= 1 %s) (<= %s 4) (<= (+ %s %s) %s) (<= 0 %s) (<= %s 1114111))", w, w, pos, w, n, r, r)))
+	x.assume(implies(and(okT, "(< "+b+" 128)"), fmt.Sprintf("(and (= %s %s) (= %s 1))", r, b, w)))
+	x.assume(implies(and(okT, "(>= "+b+" 128)"), fmt.Sprintf("(>= %s 128)", r)))
+	x.st.cells[it.Cell] = S{x.define("rng.pos", SInt, ite(okT, "(+ "+pos+" "+w+")", pos)), SInt}
+	x.externs["range over string: rune decoding as utf8.DecodeRuneInString (ASCII exact, otherwise rune >= 0x80, width 1..4 within the string)"] = true
+	return Tup{E: []Val{S{okT, SBool}, S{pos, SInt}, S{r, SInt}}}
 }
